@@ -528,6 +528,27 @@ pub fn deviate(rng: &mut Rng, s: &mut Sym, which: usize) -> Option<String> {
             s.discs[i] = Value::String(hex);
             Some("ok_non_utf8_disclosure_matches_nothing".into())
         }
+        26 => {
+            // a referenced disclosure whose text is a JSON array FOLLOWED BY more bytes: not a
+            // JSON array, matches nothing — unless the parser stops after the first value
+            let pool: Vec<usize> = member_discs.iter().chain(elem_discs.iter()).copied().collect();
+            if pool.is_empty() {
+                return None;
+            }
+            let i = *rng.pick(&pool);
+            let mut txt = s.discs[i].to_string();
+            if txt.contains('@') {
+                return None; // keep nested references out of the raw-byte form
+            }
+            let tail: &str = *rng.pick(&["x", " []", "]", ",1", "\n{}", " \"a\"", "[\"c2FsdA\",\"admin\",true]", "\u{0}"]);
+            txt.push_str(tail);
+            let mut hex = String::from("hex:");
+            for b in txt.as_bytes() {
+                hex.push_str(&format!("{:02x}", b));
+            }
+            s.discs[i] = Value::String(hex);
+            Some("ok_trailing_data_disclosure_matches_nothing".into())
+        }
         25 => {
             // one malformed digest string (too short, not base64url, truncated) at two places
             if objs.is_empty() {
@@ -556,7 +577,7 @@ pub fn deviate(rng: &mut Rng, s: &mut Sym, which: usize) -> Option<String> {
     }
 }
 
-pub const N_DEVIATIONS: usize = 27;
+pub const N_DEVIATIONS: usize = 28;
 
 fn to_cred(s: &Sym, issuer: usize) -> CredSpec {
     CredSpec::Byz {
@@ -583,7 +604,7 @@ pub fn gen_c08(rng: &mut Rng, tier: Tier) -> MsgScn {
     let mut creds = vec![to_cred(&base, 0)];
     let mut pres = vec![PresSpec::Direct { cred: 0, picks: (0..base.discs.len()).collect() }];
     let mut cases = Vec::new();
-    let mk_case = |b: Base, rng: &mut Rng| Case { base: b, faults: vec![], wire: vec![], fmt: rand_fmt(rng), session: None, resolver: Resolver::Directory, kb_enc: KbEnc::Absent, extra: vec![], expand: None, hold_s: 0, escapes: false, extra_raw: None, member_order: None };
+    let mk_case = |b: Base, rng: &mut Rng| Case { base: b, faults: vec![], wire: vec![], fmt: rand_fmt(rng), session: None, resolver: Resolver::Directory, kb_enc: KbEnc::Absent, extra: vec![], expand: None, hold_s: 0, escapes: false, extra_raw: None, member_order: None, mirror: None, general: None };
     cases.push(mk_case(Base::Pres(0), rng));
     // well-formed credential: every subset of its disclosures must give the algorithm's result
     let mut c = mk_case(Base::Cred(0), rng);
